@@ -6,16 +6,20 @@ From AG Require Import Toposort Tagged Tower.
 Local Open Scope Z_scope.
 
 Definition zvalue := value Z.
-Definition zeval (fuel : nat) (env : list zvalue) (e : exp) (s : state Z) :=
-  eval Z 0 1 Z.add Z.sub Z.mul Z.opp zF Z.sgn (fun k => Z.gtb k 0) (fun k => k)
+(* the id supply of the implementation as it stands in /repo *)
+Definition SUPPLY : supply := Mono.
+
+Definition zeval_sup (sup : supply) (fuel : nat) (env : list zvalue) (e : exp) (s : state Z) :=
+  eval Z 0 1 Z.add Z.sub Z.mul Z.opp zF Z.sgn (fun k => Z.gtb k 0) (fun k => k) sup
        fuel env e s.
+Definition zeval := zeval_sup SUPPLY.
 
 Definition FUEL : nat := 400.
 
 (* result of a closed top-level program from a given trace-stack height:
    Some (Some k) value, Some None raised, None out of fuel *)
 Definition run_tagged_from (top0 : Z) (e : exp) : option (option Z) * Z :=
-  match zeval FUEL [] e {| top := top0; store := [] |} with
+  match zeval FUEL [] e {| top := top0; store := []; noise := [] |} with
   | (Val v, s) => (Some (Some (strip Z v)), top Z s)
   | (Err _, s) => (Some None, top Z s)
   | (OutOfFuel, s) => (None, top Z s)
@@ -65,9 +69,36 @@ Definition check06 (c : case06) : nat :=
   if negb (forallb (fun v => oz_eqb v spec) c.(b_vals)) then 2%nat else
   let x := VNum Z c.(b_x) in
   let root := root_node Z 0 in
-  let m1 := primal_under [VBox Z 0 x (NV Z 0%nat)] {| top := 0; store := [root] |} c.(b_body) in
-  let m2 := primal_under [VBox Z 0 x (NJ Z (VNum Z 1))] {| top := 0; store := [] |} c.(b_body) in
+  let m1 := primal_under [VBox Z 0 x (NV Z 0%nat)] {| top := 0; store := [root]; noise := [] |} c.(b_body) in
+  let m2 := primal_under [VBox Z 0 x (NJ Z (VNum Z 1))] {| top := 0; store := []; noise := [] |} c.(b_body) in
   let m3 := primal_under [VBox Z 1 (VBox Z 0 x (NV Z 0%nat)) (NV Z 1%nat)]
-                         {| top := 1; store := [root; root] |} c.(b_body) in
+                         {| top := 1; store := [root; root]; noise := [] |} c.(b_body) in
   let okm m := match m with Some r => oz_eqb r spec | None => false end in
   if okm m1 && okm m2 && okm m3 then 0%nat else 1%nat.
+
+(* C20: what one thread observes under a schedule.  For each of its trace
+   entry/exit events, in order: (is_entry, traces entered by other threads,
+   traces exited by other threads) since its previous event. *)
+Record case20 := { s_exp : exp; s_gaps : list (bool * Z * Z); s_res : option Z }.
+
+Definition noise_of (sup : supply) (gaps : list (bool * Z * Z)) : list Z :=
+  match sup with
+  | Depth => map (fun g => snd (fst g) - snd g) gaps
+  | Mono => map (fun g => snd (fst g)) (filter (fun g => fst (fst g)) gaps)
+  end.
+
+Definition run_noisy (sup : supply) (e : exp) (gaps : list (bool * Z * Z)) : option (option Z) :=
+  match zeval_sup sup FUEL [] e {| top := -1; store := []; noise := noise_of sup gaps |} with
+  | (Val v, _) => Some (Some (strip Z v))
+  | (Err _, _) => Some None
+  | (OutOfFuel, _) => None
+  end.
+
+(* 2 = the thread's result differs from its solo result (the property fails on
+   this schedule); 1 = property holds here but the model predicts otherwise *)
+Definition check20 (c : case20) : nat :=
+  if negb (oz_eqb c.(s_res) (run_spec c.(s_exp))) then 2%nat else
+  match run_noisy SUPPLY c.(s_exp) c.(s_gaps) with
+  | Some r => if oz_eqb r c.(s_res) then 0%nat else 1%nat
+  | None => 1%nat
+  end.
